@@ -3,6 +3,7 @@ import json
 import os
 from concurrent.futures import ThreadPoolExecutor
 
+import code_tie
 import vlib
 
 META = {
@@ -28,6 +29,7 @@ META = {
 MODEL = ["theories/Kv/KvCorr.vo"]
 PROOFS = ["theories/Props/C05.vo"]
 STATEMENT_FILES = ["theories/Props/C05.v", "theories/Kv/KvGen.v"]
+SEMANTIC_TIE = code_tie.functions("C05")   # Go bodies proved equal to the model (Props/C05Code.v)
 
 ERR = {"not_found": "ENotFound", "exists": "EExists", "key_too_long": "EKeyTooLong", "decode": "EDecode",
        "user": "EUser", "unordered": "EUnordered", "cancel": "ECancel", "other": "EOther", "panic": "EPanic"}
@@ -424,6 +426,7 @@ def run(ck):
         ck.discharged = list(ck.obligations)
     if ck.thorough and proofs_ok:
         ck.coqchk(["Verif.Props.C05"])
+    code_tie.run(ck, "C05")
 
     binp = ck.build_harness("c05")
     cases = []
